@@ -174,6 +174,10 @@ func c09item(r *vf.Rand) []byte {
 		n = r.Range(4, 8)
 	case 4:
 		n = r.Range(66, 520)
+		if r.Chance(1, 4) {
+			// beyond the 520 bytes a filteradd message can carry: Add takes any byte string
+			n = []int{521, 522, 523, 524, 1000, 4099, 65536 + 7}[r.Intn(7)]
+		}
 	default:
 		n = r.Range(0, 40)
 	}
